@@ -429,6 +429,10 @@ def run(c):
     reconfig_race_leg(c, wd, 1 if quick else 2, 600 if quick else 4000)      # (quick: every schedule with one forced switch)
     registration_race_leg(c, wd, 1 if quick else 2, 400 if quick else 4000)
     own_frames_leg(c, wd)
+    # "acts when execution reaches that line" also in a later life of the agent, for a tracepoint registered in code
+    # against a service that has nothing for this client (shared with C12)
+    from .. import e2e_leg
+    e2e_leg.two_lives_leg(c, same_object=True, service_empty=True)
     validate(c, traces, meta, lambda m: m['firings'] >= 3, ideal=True)
     c.extra['events_judged'] = sum(m['events'] for m in meta)
     c.extra['firings'] = sum(m['firings'] for m in meta)
